@@ -538,6 +538,54 @@ func init() {
 		}
 	}
 	pureModelAxioms["pure:strings.Cut"] = cut
+	// definitional hints for witness search only (every witness is validated natively afterwards)
+	pureModelAxioms["pure:strings.ContainsAny"] = func(u *Term) []*Term {
+		if u.args[1].kind != KConst {
+			return nil
+		}
+		var alts []*Term
+		for _, r := range u.args[1].s {
+			alts = append(alts, TContains(u.args[0], TStr(string(r))))
+		}
+		return []*Term{TEq(u, TOr(alts...))}
+	}
+	pureModelAxioms["pure:strings.ContainsRune"] = func(u *Term) []*Term {
+		if u.args[1].kind != KConst {
+			return nil
+		}
+		return []*Term{TEq(u, TContains(u.args[0], TStr(string(rune(u.args[1].i)))))}
+	}
+	pureModelAxioms["pure:strings.IndexByte"] = func(u *Term) []*Term {
+		if u.args[1].kind != KConst {
+			return nil
+		}
+		return []*Term{TEq(u, TIndexOf(u.args[0], TStr(string(rune(u.args[1].i))), TInt(0)))}
+	}
+	pureModelAxioms["pure:strings.IndexRune"] = pureModelAxioms["pure:strings.IndexByte"]
+	pureModelAxioms["pure:strings.Count"] = func(u *Term) []*Term {
+		return []*Term{TEq(TCmp(">", u, TInt(0)), TContains(u.args[0], u.args[1])), TCmp(">=", u, TInt(0))}
+	}
+	intRL := `(re.++ (re.opt (re.union (str.to_re "+") (str.to_re "-"))) ((_ re.loop 1 18) (re.range "0" "9")))`
+	atoi := func(u *Term) []*Term {
+		if !strings.HasSuffix(u.op, "#err") {
+			return nil
+		}
+		anyInt := `(re.++ (re.opt (re.union (str.to_re "+") (str.to_re "-"))) (re.+ (re.range "0" "9")))`
+		return []*Term{TImplies(TInRe(u.args[0], intRL), TNot(u)), TImplies(TNot(TInRe(u.args[0], anyInt)), u)}
+	}
+	pureModelAxioms["pure:strconv.Atoi"] = atoi
+	pureModelAxioms["pure:encoding/hex.DecodeString"] = func(u *Term) []*Term {
+		if !strings.HasSuffix(u.op, "#err") {
+			return nil
+		}
+		hexRL := `(re.* (re.++ (re.union (re.range "0" "9") (re.range "a" "f") (re.range "A" "F")) (re.union (re.range "0" "9") (re.range "a" "f") (re.range "A" "F"))))`
+		return []*Term{TEq(u, TNot(TInRe(u.args[0], hexRL)))}
+	}
+	for _, nm := range []string{"unicode.IsDigit", "unicode.IsNumber"} {
+		pureModelAxioms["pure:"+nm] = func(u *Term) []*Term {
+			return []*Term{TImplies(TCmp("<", u.args[0], TInt(128)), TEq(u, TAnd(TCmp(">=", u.args[0], TInt(48)), TCmp("<=", u.args[0], TInt(57)))))}
+		}
+	}
 	ufAxioms["pure:strings.TrimSuffix"] = func(u *Term) []*Term {
 		s, suf := u.args[0], u.args[1]
 		return []*Term{TIte(TSuffixOf(suf, s), TEq(s, TConcat(u, suf)), TEq(u, s))}
